@@ -5,6 +5,8 @@ import PB.Gen.DbPerm
 import PBProofs.Lemmas.Db
 import PBProofs.Lemmas.DbSim
 import PBProofs.Lemmas.DbPerm
+import PB.Model.DbInj
+import PBProofs.Lemmas.DbInj
 /-
 C03 — Secret and crown-jewel records never cross a non-privileged database interface.
 Property theorems only (helper lemmas live in PBProofs/Lemmas/DbPerm.lean).
@@ -297,6 +299,130 @@ theorem learns_at_most_existence_run (cfg : Cfg) (o : Opts) :
       · rename_i l l' e1 e2; exact (hne l l' e1 e2).elim
       · exact hout
 
+/-! ### Injected runtime databases (`runtime.Registry` as storage: no MetaHandler, no Batcher, no Purger)
+
+`PB.Db.Inj` models the path as the code has it: `Controller.GetMeta` falls back to `storage.Get` + `r.Meta()`,
+`Registry.Put` hands the record to the provider's `Set`, immediate deletes run into `InjectBase.Delete`. The state
+is what the provider holds plus the log of every record its `Set` received. -/
+
+/-- Nothing that is not permitted (and valid) is returned or listed from an injected database. -/
+theorem injected_outputs_permitted (o : Opts) (st : Inj.PSt) (op : Op) (now : Int) :
+    ∀ r ∈ outRecs (Inj.step o st op now).2, r.md.permitted o.loc o.int = true ∧ r.md.valid now = true := by
+  intro r hr
+  have hget : ∀ k x, Inj.getRecord o st k now = .ok x → x.md.permitted o.loc o.int = true ∧ x.md.valid now = true := by
+    intro k x h
+    rw [Inj.getRecord_eq_kvget] at h
+    unfold KV.get at h
+    cases hv : vis now (st.prov.get k) with
+    | none => rw [hv] at h; cases h
+    | some y =>
+      rw [hv] at h; simp only at h
+      split at h
+      · rename_i ha; cases h; rw [hasAccess_eq_permitted] at ha; exact ⟨ha, (vis_some hv).2⟩
+      · cases h
+  have hnone : ∀ (a : Out), outRecs a = [] → r ∈ outRecs a → False := by intro a h1 h2; rw [h1] at h2; cases h2
+  have hput : ∀ st0 x, outRecs (Inj.ctlPut st0 x).2 = [] := by intro st0 x; rw [Inj.ctlPut_out]; split <;> rfl
+  have hmod : ∀ k f, outRecs (Inj.ifModify o st k now f).2 = [] := by
+    intro k f; unfold Inj.ifModify
+    cases Inj.getRecord o st k now with
+    | error e => rfl
+    | ok x => exact hput _ _
+  have hp : ∀ x isNew, outRecs (Inj.ifPut o st x now isNew).2 = [] := by
+    intro x isNew; unfold Inj.ifPut
+    cases Inj.putPre o st x.key now with
+    | some e => rfl
+    | none => exact hput _ _
+  cases op with
+  | get k =>
+    simp only [Inj.step] at hr
+    cases hg : Inj.getRecord o st k now with
+    | error e => rw [hg] at hr; simp [outRecs] at hr
+    | ok x => rw [hg] at hr; simp [outRecs] at hr; rw [hr]; exact hget k x hg
+  | query q =>
+    simp only [Inj.step] at hr
+    split at hr
+    · simp [outRecs] at hr
+    · simp only [outRecs] at hr
+      have := registry_query_permitted st.prov q o.loc o.int now r hr
+      exact this
+  | exists_ k =>
+    exfalso; simp only [Inj.step] at hr
+    cases hg : Inj.getRecord o st k now with
+    | error e => rw [hg] at hr; cases e <;> simp [outRecs] at hr
+    | ok x => rw [hg] at hr; simp [outRecs] at hr
+  | put x => exact (hnone _ (hp x false) hr).elim
+  | putNew x => exact (hnone _ (hp x true) hr).elim
+  | delete k => exact (hnone _ (hmod k _) hr).elim
+  | setAbs k t => exact (hnone _ (hmod k _) hr).elim
+  | setRel k d => exact (hnone _ (hmod k _) hr).elim
+  | mkSecret k => exact (hnone _ (hmod k _) hr).elim
+  | mkCrown k => exact (hnone _ (hmod k _) hr).elim
+  | insert k a p =>
+    exfalso; simp only [Inj.step] at hr; unfold Inj.ifInsert at hr
+    cases hg : Inj.getRecord o st k now with
+    | error e => rw [hg] at hr; simp [outRecs] at hr
+    | ok x =>
+      rw [hg] at hr; simp only at hr
+      cases hs : setField x.form x.fields a p with
+      | none => rw [hs] at hr; simp [outRecs] at hr
+      | some fs => rw [hs] at hr; simp only at hr; exact hnone _ (hput _ _) hr
+  | putMany rs => exfalso; simp only [Inj.step] at hr; split at hr <;> simp [outRecs] at hr
+  | purge q => exfalso; simp only [Inj.step] at hr; split at hr <;> simp [outRecs] at hr
+  | maintain t sk => simp [Inj.step, outRecs] at hr
+  | flush => simp [Inj.step, outRecs] at hr
+  | clear => simp [Inj.step, outRecs] at hr
+  | evict k => simp [Inj.step, outRecs] at hr
+
+/-- Every `Set` an operation makes the value provider receive is for a key that holds nothing visible or a
+    record the interface may see — whatever the operation (put, put-new, delete, expiry and flag setters,
+    attribute insert, batch, purge), whatever the interface's privileges: an operation appends at most one
+    entry to the provider's `Set` log (and hands that record to the subscribers), and never for a hidden record. -/
+theorem injected_sets_only_where_permitted (o : Opts) (st : Inj.PSt) (op : Op) (now : Int) :
+    ∃ l, (Inj.step o st op now).1.sets = st.sets ++ l ∧ (Inj.step o st op now).1.notes = st.notes ++ l ∧
+      ∀ x ∈ l, ∀ r, vis now (st.prov.get x.key) = some r → r.md.permitted o.loc o.int = true := by
+  rcases Inj.step_effect o st op now with h | ⟨x, h, hx⟩
+  · exact ⟨[], by rw [h]; simp, by rw [h]; simp, by intro x hx; cases hx⟩
+  · refine ⟨[x], by rw [h], by rw [h], ?_⟩
+    intro y hy; simp at hy; subst hy; exact hx
+
+/-- No write-through on an injected database: a visible record the interface may not see stays what the provider
+    holds, no `Set` for its key reaches the provider, and nothing under its key is pushed to subscribers. -/
+theorem injected_no_write_through (o : Opts) (st : Inj.PSt) (op : Op) (now : Int)
+    (k : String) (r : Rec) (hv : vis now (st.prov.get k) = some r) (hp : r.md.permitted o.loc o.int = false) :
+    (Inj.step o st op now).1.prov.get k = st.prov.get k ∧
+    ∃ l, (Inj.step o st op now).1.sets = st.sets ++ l ∧ (Inj.step o st op now).1.notes = st.notes ++ l ∧
+      ∀ x ∈ l, x.key ≠ k := by
+  rcases Inj.step_effect o st op now with h | ⟨x, h, hx⟩
+  · exact ⟨by rw [h], [], by rw [h]; simp, by rw [h]; simp, by intro x hx; cases hx⟩
+  · have hne : x.key ≠ k := by
+      intro e; rw [e] at hx; have := hx r hv; rw [hp] at this; cases this
+    refine ⟨by rw [h]; exact Store.get_put_ne _ _ _ (fun e => hne e.symm), [x], by rw [h], by rw [h], ?_⟩
+    intro y hy; simp at hy; subst hy; exact hne
+
+/-- An interface learns at most that the key exists, on injected databases too: over two providers whose contents
+    are indistinguishable for the interface every operation gives the same result (query results as unordered
+    streams) — single step … -/
+theorem injected_learns_at_most_existence (o : Opts) (now : Int) (st st' : Inj.PSt)
+    (hn : st.prov.NodupKeys) (hn' : st'.prov.NodupKeys) (h : lowEqFrom o.loc o.int now st.prov st'.prov) (op : Op) :
+    sameOut (Inj.step o st op now).2 (Inj.step o st' op now).2 :=
+  (Inj.step_lowEq o now now st st' hn hn' h (Int.le_refl _) op).1
+
+/-- … and whole histories at non-decreasing times (writes included: the same `Set` reaches both providers). -/
+theorem injected_learns_at_most_existence_run (o : Opts) :
+    ∀ (ops : List (Op × Int)) (t0 : Int) (st st' : Inj.PSt), st.prov.NodupKeys → st'.prov.NodupKeys →
+      lowEqFrom o.loc o.int t0 st.prov st'.prov → wellTimed t0 ops →
+      sameOuts (Inj.run o st ops) (Inj.run o st' ops) := by
+  intro ops
+  induction ops with
+  | nil => intro t0 st st' _ _ _ _; trivial
+  | cons x rest ih =>
+    intro t0 st st' hn hn' h ht
+    obtain ⟨op, now⟩ := x
+    obtain ⟨hle, _, hrest⟩ := ht
+    obtain ⟨h1, h2, h3, h4⟩ := Inj.step_lowEq o now t0 st st' hn hn' h hle op
+    unfold Inj.run
+    exact ⟨h1, ih now _ _ h3 h4 h2 hrest⟩
+
 /-! ### Non-vacuity -/
 
 /-- Two stores that differ in the content, expiry and crown-jewel flag of a secret record are indistinguishable
@@ -341,5 +467,16 @@ example :
     (Db.step {} { loc := false, int := false, cache := .read }
       { cache := [{ key := "k", md := { secret := true } }], store := [{ key := "k", md := { secret := true } }] }
       (.get "k") 10).2 = .err .denied := by decide
+
+/-- Injected database: an external `Put` / `PutNew` on a secret runtime record is refused and reaches no `Set`;
+    the same call by an internal interface reaches the provider; a delete runs into `InjectBase.Delete`. -/
+example :
+    let secret : Rec := { key := "p/a", md := { secret := true }, fields := [("S", .prim (.str "s3cr3t"))] }
+    let st : Inj.PSt := { prov := [secret] }
+    let w : Rec := { key := "p/a", fields := [("S", .prim (.str "overwritten"))] }
+    (Inj.step { loc := false, int := false } st (.put w) 10).2 = .err .denied ∧
+    (Inj.step { loc := true, int := false } st (.putNew w) 10).1.sets = [] ∧
+    ((Inj.step { loc := false, int := true } st (.put w) 10).1.sets.map (·.key)) = ["p/a"] ∧
+    (Inj.step { loc := true, int := true } st (.delete "p/a") 10).2 = .err .notImpl := by decide
 
 end PB.C03
